@@ -221,7 +221,21 @@ func c17Structured(r *rand.Rand) ([]byte, string, []int) {
 		return b
 	}
 	after := [][]byte{{0xFF, 0xFB, 0x90, 0x00}, {0xFF, 0xF1, 0x50, 0x80}, []byte("fLaC\x00\x00\x00\x22"), []byte("junk junk"), {0, 0, 0, 0}, []byte("PK\x03\x04"), {}}
-	switch k := r.Intn(10); k {
+	switch k := r.Intn(11); k {
+	case 10: // zstd: skippable frame(s) (magic 0x184D2A5?, little-endian size, payload), then a frame of some kind
+		var b bytes.Buffer
+		var marks []int
+		for fr := 1 + r.Intn(2); fr > 0; fr-- {
+			n := []int{0, 1, 4, 100, 500, 1000, 3060, 3064, 4000}[r.Intn(9)] + r.Intn(4)
+			b.Write([]byte{byte(0x50 + r.Intn(16)), 0x2A, 0x4D, 0x18})
+			b.Write([]byte{byte(n), byte(n >> 8), byte(n >> 16), 0})
+			b.Write(filler(n))
+			marks = append(marks, b.Len(), b.Len()+4)
+		}
+		next := [][]byte{{0x28, 0xB5, 0x2F, 0xFD, 0x04, 0x58}, {0x04, 0x22, 0x4D, 0x18, 0x64, 0x40}, {0x02, 0x21, 0x4C, 0x18}, []byte("junk"), {}, {0x1F, 0x8B, 0x08}, {0x25, 0xB5, 0x2F, 0xFD}}
+		b.Write(next[r.Intn(len(next))])
+		b.Write(filler(r.Intn(200)))
+		return b.Bytes(), "zstd-skippable", marks
 	case 9: // MARC 21: leader (record length, base address of data), directory, 0x1E, fields
 		n := r.Intn(12)
 		var dir bytes.Buffer
@@ -440,6 +454,19 @@ func c17Run(c *fw.Ctx, b fw.Batch) {
 				heads = append(heads, s)
 			}
 		}
+		if b.Idx == 0 {
+			// every token inside ordinary text and inside zero bytes, with 300 bytes behind it
+			// (a check that looks for a marker relative to the END of what it is given moves with the limit)
+			for _, tok := range dict {
+				if len(tok) == 0 || len(tok) > 64 {
+					continue
+				}
+				for _, pre := range []string{"", "forty bytes of ordinary text in front: ", "\x00\x00\x00\x00"} {
+					x := append(append([]byte(pre), tok...), bytes.Repeat([]byte("tail text. "), 28)...)
+					c17JudgeInput(c, "text+dictionary-token+text", x, 400, []int{len(pre) + len(tok), len(pre) + len(tok) + 128, len(pre) + 128})
+				}
+			}
+		}
 		lo, hi := split(len(heads), b.Idx, b.Of)
 		for _, hd := range heads[lo:hi] {
 			for _, k := range []int{2, 4, 8, len(hd)} {
@@ -544,7 +571,7 @@ func init() {
 	fw.Register(&fw.Prop{
 		ID:    "C17",
 		Level: "exploration",
-		Rule: "inputs = every seed (first 6000 bytes), seeds with random / text / zero / other-seed tails appended (incl. one 9000-byte tail per seed swept sparsely past 4096 and 8192), seed mutants, seeds whose ASCII digit fields in the first 64 bytes (MARC leader, tar / cpio / ar numbers) are rewritten with boundary values, and structured inputs whose deciding bytes sit at offsets given by length fields or at late fixed offsets (ID3v2 tags of 0-6000 bytes followed by MPEG / AAC / FLAC / junk, CRX with key+signature lengths to 6000 followed by zip or junk, multi-member tar archives from archive/tar with hostile member names, OLE with late CLSIDs, Matroska with a late DocType, hand-built zips, the TrueType -> Access hand-over, late sub-type markers, DICOM / MOBI / GIMP offsets, MARC 21 records with exact and inexact record lengths / base addresses); every short binary seed's first 2 / 4 / 8 / all bytes followed by tokens from a dictionary of all string and byte-slice literals of the signature packages, read from the tree under test at run time; DetectReader with limits next to 2^32 (skipped when less than 24 GiB of memory is available); limit sweeps of binary seeds through an oddly chunking reader, a temp file and a named pipe (stat size 0). For each input the class is computed at EVERY limit up to a dense bound (1536 / 700), sparsely beyond, around 512 / 1024 / 1152 / 3072 / 4096 and around the structure's own offsets, and at 0 as the largest; once binary, every larger limit must be binary. " +
+		Rule: "inputs = every seed (first 6000 bytes), seeds with random / text / zero / other-seed tails appended (incl. one 9000-byte tail per seed swept sparsely past 4096 and 8192), seed mutants, seeds whose ASCII digit fields in the first 64 bytes (MARC leader, tar / cpio / ar numbers) are rewritten with boundary values, and structured inputs whose deciding bytes sit at offsets given by length fields or at late fixed offsets (ID3v2 tags of 0-6000 bytes followed by MPEG / AAC / FLAC / junk, CRX with key+signature lengths to 6000 followed by zip or junk, multi-member tar archives from archive/tar with hostile member names, OLE with late CLSIDs, Matroska with a late DocType, hand-built zips, the TrueType -> Access hand-over, late sub-type markers, DICOM / MOBI / GIMP offsets, MARC 21 records with exact and inexact record lengths / base addresses, zstd skippable frames followed by zstd / lz4 / other frames); every short binary seed's first 2 / 4 / 8 / all bytes followed by tokens from a dictionary of all string and byte-slice literals of the signature packages, read from the tree under test at run time; DetectReader with limits next to 2^32 (skipped when less than 24 GiB of memory is available); limit sweeps of binary seeds through an oddly chunking reader, a temp file and a named pipe (stat size 0). For each input the class is computed at EVERY limit up to a dense bound (1536 / 700), sparsely beyond, around 512 / 1024 / 1152 / 3072 / 4096 and around the structure's own offsets, and at 0 as the largest; once binary, every larger limit must be binary. " +
 			"non-trivial = the reported leaf changes at least twice along the limit sweep; distinct = distinct (first binary leaf, limit at which it first appeared, class sequence) tuples.",
 		Assumptions: []string{
 			"text = text/plain somewhere in the hierarchy; unknown = the parentless application/octet-stream root",
